@@ -7,7 +7,7 @@
    same order) and the result is the reference's.  [Reopen pre] is a crash point: the store is
    reopened and a new object (preloaded with pre) is injected and resynced; ops may contain it
    between any two operations. *)
-From Hio Require Import Base.Prelude Model.Lmdb Model.IoSub Model.Durq Proofs.DurqProofs.
+From Hio Require Import Base.Prelude Model.Lmdb Model.IoSub Model.Durq Proofs.DurqProofs Proofs.DurqMixed.
 
 (* Durq: full statement, for every Python equality on values, every history over any number
    of queues, reopen/resync at any point. *)
@@ -80,6 +80,36 @@ Theorem C23_entry_points_refine_enter_hold : forall pyeq (S : Type) sstep sview 
   gstep pyeq S sstep sview set q s st (Enter e pre) = gstep pyeq S sstep sview set q s st (Reopen pre).
 Proof. exact enter_is_reopen. Qed.
 Print Assumptions C23_entry_points_refine_enter_hold.
+
+(* Queues AND sets side by side in one Subery, also at the same key.  Subery opens the sub-db
+   "drqs." for Durq and "dsqs." for Dusq, so the durable side is keyed by (kind, key):
+   - an operation on a queue of one kind never touches the sub-db of the other kind (every state,
+     every store machine);
+   - every mixed history (ops tagged with kind and key, Enter/Reopen anywhere, a key may change kind
+     across a reopen) behaves as one independent FIFO queue / ordered set per (kind, key), with
+     durable copy = memory after every op (Dusq part under py-equality = serialisation equality). *)
+Theorem C23_kinds_independent : forall pyeq (S : Type) sstep sview kd q (E : menv S) st o,
+  fst (fst (mstep pyeq S sstep sview kd q E st o)) (subkey_of (negb kd)) = E (subkey_of (negb kd)).
+Proof. exact mixed_independent. Qed.
+Print Assumptions C23_kinds_independent.
+
+Theorem C23_mixed_history_partial : forall pyeq ops,
+  (forall a b, pyeq a b = true <-> a = b) ->
+  Forall (fun x => wf_op (snd x)) ops ->
+  mrun_ok ops (mrun pyeq store spec_sstep spec_view menv0 mqueues0 ops)
+              (mref_run pyeq (fun _ _ => []) ops).
+Proof.
+  intros pyeq ops E W. apply (mixed_run pyeq E ops menv0 mqueues0); auto.
+  intros kd q. split; [reflexivity|constructor].
+Qed.
+Print Assumptions C23_mixed_history_partial.
+
+Example C23_mixed_example :
+  let ops := [(false, 0, Push v_int); (true, 0, Push v_flt); (true, 0, Push v_flt); (false, 0, Push v_int);
+              (true, 0, Enter ESetItem []); (false, 0, Pull true); (true, 0, Clear); (false, 0, Enter ECtorKw [])]%N in
+  map sn_store (mrun bytes_eqb store spec_sstep spec_view menv0 mqueues0 ops) =
+    [[v_int]; [v_flt]; [v_flt]; [v_int; v_int]; [v_flt]; [v_int]; []; [v_int]].
+Proof. vm_compute. reflexivity. Qed.
 
 (* Non-vacuity: a history with duplicates, pulls, a crash point and a preloaded re-injection,
    for both kinds, satisfies the hypotheses and behaves as stated. *)
